@@ -471,13 +471,14 @@ def chain_script(c):
     returns the name of the class it is written in followed by what the next hop returns"""
     hops = c["hops"]
     n = len(hops)
-    static = [c["entry_static"]] + [h in ("self", "static") for h in hops]
+    static = [c["entry_static"]] + [h in ("self", "static") or h.startswith("named:") for h in hops]
     out = []
     for name, ext, ms in c["classes"]:
         out.append("class %s%s {" % (name, (" extends " + ext) if ext else ""))
         for i in ms:
             if i < n:
-                call = {"this": "$this->c%d()", "self": "self::c%d()", "static": "static::c%d()", "parent": "parent::c%d()"}[hops[i]] % (i + 1)
+                call = (hops[i][6:] + "::c%d()" if hops[i].startswith("named:") else
+                        {"this": "$this->c%d()", "self": "self::c%d()", "static": "static::c%d()", "parent": "parent::c%d()"}[hops[i]]) % (i + 1)
                 body = 'return "%s," . %s;' % (name, call)
             else:
                 body = 'return "%s";' % name
@@ -511,13 +512,17 @@ def chain_spec(c):
             ok = False
         if h == "parent" and par[lex] is None:
             ok = False
-        d = {"this": lambda: resolve(run, i + 1), "static": lambda: resolve(run, i + 1), "self": lambda: resolve(lex, i + 1),
-             "parent": lambda: resolve(par[lex], i + 1) if par[lex] is not None else None}[h]()
+        if h.startswith("named:"):
+            run = h[6:]             # a call that names a class: static:: is that class from here on
+            d = resolve(run, i + 1)
+        else:
+            d = {"this": lambda: resolve(run, i + 1), "static": lambda: resolve(run, i + 1), "self": lambda: resolve(lex, i + 1),
+                 "parent": lambda: resolve(par[lex], i + 1) if par[lex] is not None else None}[h]()
         if d is None:
             return None, ok
         lex = d
         trace.append(d)
-        if h in ("self", "static"):
+        if h in ("self", "static") or h.startswith("named:"):
             inst = False
     return trace, ok
 
@@ -529,13 +534,13 @@ def chain_cases(rng, tier):
     random subsets of the classes; sampled sequences of 4-5 hops"""
     shapes = [[("A", None), ("B", "A"), ("C", "B"), ("D", "C")],
               [("A", None), ("B", "A"), ("C", "B"), ("D", "B")]]
-    forms = ["this", "self", "static", "parent"]
+    forms = ["this", "self", "static", "parent", "named"]       # named = C::m() with C a class of the hierarchy
     def valid(seq, static_entry):
         inst = not static_entry
         for h in seq:
             if h == "this" and not inst:
                 return False
-            if h in ("self", "static"):
+            if h in ("self", "static", "named"):
                 inst = False
         return True
     seqs = []
@@ -559,7 +564,13 @@ def chain_cases(rng, tier):
                 assigns += [[rng.choice(pats) for _ in range(len(seq) + 1)] for _ in range(3 if tier == "quick" else 8)]
                 for a in assigns:
                     classes = [(n, e, [i for i in range(len(seq) + 1) if n in a[i]]) for n, e in shape]
-                    c = {"classes": classes, "entry_static": se, "r": r, "hops": seq, "gen": gen}
+                    # the class a `named` hop names: an ancestor of the start class (or the class itself), sometimes any class
+                    par = dict(shape)
+                    up = [r]
+                    while par[up[-1]] is not None:
+                        up.append(par[up[-1]])
+                    hops = [("named:" + (rng.choice(up) if rng.random() < 0.8 else rng.choice([n for n, _ in shape]))) if h == "named" else h for h in seq]
+                    c = {"classes": classes, "entry_static": se, "r": r, "hops": hops, "gen": gen}
                     tr, ok = chain_spec(c)
                     if not ok:
                         continue
@@ -570,9 +581,9 @@ def chain_cases(rng, tier):
 
 
 def coq_chain(c, seen):
-    static = [c["entry_static"]] + [h in ("self", "static") for h in c["hops"]]
+    static = [c["entry_static"]] + [h in ("self", "static") or h.startswith("named:") for h in c["hops"]]
     h = {"classes": [{"name": n, "extends": e, "impls": [], "methods": [("c%d" % i, static[i], 0) for i in ms]} for n, e, ms in c["classes"]], "ifaces": []}
-    hops = coq_list('%s "c%d"' % (HOPC[x], i + 1) for i, x in enumerate(c["hops"]))
+    hops = coq_list(('HNamed "%s" "c%d"' % (x[6:], i + 1)) if x.startswith("named:") else ('%s "c%d"' % (HOPC[x], i + 1)) for i, x in enumerate(c["hops"]))
     return "(%s, %s, %s, %s, %s, %s)" % (coq_table(h), "true" if c["entry_static"] else "false", q(c["r"]), q("c0"), hops,
                                          "None" if seen is None else "(Some %s)" % coq_list(q(x) for x in seen))
 
@@ -674,7 +685,7 @@ def main(ck):
     for j, cls in sorted(hbad.items(), key=lambda kv: len(hcases[hidx[kv[0]]]["hops"])):
         i = hidx[j]
         c = hcases[i]
-        forms = ("static-entry>" if c["entry_static"] else "object>") + ">".join(c["hops"])
+        forms = ("static-entry>" if c["entry_static"] else "object>") + ">".join(h.split(":")[0] for h in c["hops"])
         rep = {"case": {k: c[k] for k in ("classes", "entry_static", "r", "hops", "gen")}, "script": hsrcs[i], "impl_trace": c["_seen"],
                "reference_trace": chain_spec(c)[0], "clauses": cls}
         if 99 in cls or 3 in cls:
@@ -755,7 +766,7 @@ def main(ck):
                    "hierarchies with 2-5 classes, 0-4 interfaces with multiple extends, random overrides, arities and duck interfaces; deep "
                    "structures: straight interface chains and class chains of depth 3-6, interface chain under a class chain, chain+diamond "
                    "mixes, 60 seeded chain-biased hierarchies with 4-7 interfaces; "
-                   "call chains: 4-class hierarchies (straight chain, chain with a fork), every sequence of 1-3 hops over $this-> / self:: / static:: / parent:: "
+                   "call chains: 4-class hierarchies (straight chain, chain with a fork), every sequence of 1-3 hops over $this-> / self:: / static:: / parent:: / C::m() (a named class of the hierarchy) "
                    "(`$this->` before the first self:: / static::) from an object entry and a static entry, started on the three lowest classes, methods declared by "
                    "all / alternating / random subsets of the classes, plus sampled sequences of 4-5 hops: the full trace of defining classes is compared; "
                    "evaluations = probes (+ hops); non-trivial = distinct hierarchy with at least one extends/implements edge",
